@@ -57,7 +57,7 @@ def step_requests(st, replies=None, si=None):
     for c, v in items:
         if isinstance(v, bytes):
             try:
-                out.append((c, canon_text(v)))
+                out.append((c, D.canon_request_text(v)))
             except Exception:
                 out.append((c, None))
         else:
